@@ -28,7 +28,7 @@ type ConcatCase struct {
 
 // laxOps are the three malformations the lax ASN.1 mode forgives, plus value edits that keep a
 // certificate parseable; they make the interesting elements (accepted, with or without a non-fatal error).
-var concatOps = []int{mIntNonMinimal, mIntNonMinimal, mLatin, mLatin, mEmptyOID, mEmptyOID, mOIDReplace, mIntSet, mEmptyValid, mEmptyValid, mFlip, mBadBool, mBitPad, mOddTime, mSwap, mDup, mDelete, mInsert, mRetag, mLenNonMinimal, mArc80, mContent}
+var concatOps = []int{mIntNonMinimal, mIntNonMinimal, mLatin, mLatin, mEmptyOID, mEmptyOID, mOIDReplace, mIntSet, mEmptyValid, mEmptyValid, mSCTList, mFlip, mBadBool, mBitPad, mOddTime, mSwap, mDup, mDelete, mInsert, mRetag, mLenNonMinimal, mArc80, mContent}
 
 func genConcat(t *rapid.T) ConcatCase {
 	n := []int{2, 1, 2, 3, 4, 2, 3}[uni(t, "n")%7]
